@@ -18,7 +18,7 @@ CONSTANTS
   LegacyNilLog = FALSE
   PubRest <- NoRest
   MutBatchPersistFirst = FALSE
-  MutDropLogEarly = FALSE
+  MutDropLogEarly = TRUE
   MutBatchNoWait = FALSE
   MutPersistOutsideLock = FALSE
 INVARIANTS NoPanic OneUnsettled OneSenderPerPair NoSpuriousRedelivery OnlyOwnTopic BlockingReturn AfterClose NoStuckCall Complete
